@@ -14,6 +14,7 @@ From PowHsm Require Import Proofs.SrcEquivSignProtoM.
 From PowHsm Require Import Proofs.SrcEquivGateM.
 From PowHsm Require Import Proofs.SrcLiftGate.
 From PowHsm Require Import Proofs.SrcEquivGateV1M.
+From PowHsm Require Import Proofs.SrcLiftGate2.
 Open Scope N_scope.
 
 (* a request the gate rejects is answered {errorcode: code} and the world (script, trace, flag) is untouched: no exchange with the device at all *)
@@ -379,5 +380,16 @@ Theorem C02_source_whole_request_path_v1_is_model :
          srcm_HSM1ProtocolLedger____internal_handle_request cm init self (of_json request) w =
          SrcEquivDongleM.mres of_json (handle_request keccak kind V1 request w).
 Proof. exact (@srcm_handle_request_v1_ok). Qed.
+
+(* a request the gate rejects: the translated request path answers that code and leaves the world untouched (no exchange, no reconnection) *)
+Theorem C02_source_rejected_no_exchange :
+  forall (keccak : bytes -> bytes) (kind : dongle_kind) (init : pm pv)
+           (cm : string -> pv -> list pv -> pr pv) (fuel : nat) (self : pv) 
+           (request : json) (code : Z) (w : world),
+         env_ok keccak kind init cm fuel w ->
+         gate_request V5 request = GReject code ->
+         srcm_HSM2ProtocolLedger____internal_handle_request fuel cm init self (of_json request) w =
+         (XOk (of_json (JObj [(KEY_ERRORCODE, JInt code)])), w).
+Proof. exact (@src_rejected_no_exchange). Qed.
 
 Example C02_nonvacuous : True. Proof. exact I. Qed. (* 24 concrete classifications closed by vm_compute in Proofs/C02.v *)
